@@ -38,7 +38,8 @@ def sound(shape, cards) -> bool:
     m = R.build(shape, cards)
     feats = _index(m)
     idx = {id(f): i for i, f in enumerate(feats)}
-    sets = FMAtomicSets().execute(m).get_result()
+    from .common import result_twice
+    sets = result_twice(FMAtomicSets(), m)
     sets2 = get_atomic_sets(m)
     members = []
     for s in sets:
